@@ -221,6 +221,26 @@ def run(ctx):
     # the enum-state atomics
     r4.note("%d atomic mutation sites in the stats module" % nsites)
     # ---------------- R5 a transaction / query is counted where it ends
+    # `no total ever decreases`: the totals live in Address.stats. A pool that from_config builds in place of a live one (its definition, or a general setting it is
+    # built from, changed) takes the totals of the servers that were in the live pool over - a fresh AddressStats only for a server that was not there (D77)
+    fc18 = F.body("pgcat::pool::ConnectionPool::from_config::{closure#0}")
+    if fc18 is None:
+        r4.missing("ConnectionPool::from_config")
+    else:
+        served = []
+        for b_, blk, st in F.aggregates("pgcat::config::Address"):
+            if b_ is not fc18 or "stats" not in st["rv"]["fields"]:
+                continue
+            rv = st["rv"]
+            # the address of a server of the pool (the one that carries the mirrors), not a mirror's
+            mo = [o for o in origins(fc18, rv["ops"][rv["fields"].index("mirrors")]) if o.kind == "call" and o.call.name.endswith("Vec::new")]
+            if mo and not [o for o in origins(fc18, rv["ops"][rv["fields"].index("mirrors")]) if o.kind in ("place",) and fc18.varnames.get(o.what)]:
+                pass
+            calls_ = {o.call.name for o in origins(fc18, rv["ops"][rv["fields"].index("stats")], taint=True) if o.kind == "call"}
+            served.append((blk, "pgcat::pool::get_pool" in calls_, sorted(x.split("::")[-1] for x in calls_)[:6]))
+        r4.check(any(ok for _b, ok, _c in served), "totals-survive-a-rebuild", "the AddressStats of a server of a rebuilt pool are taken from the live pool's address when the server was in it",
+                 "every Address from_config builds gets a fresh AddressStats (%s): a reload that rebuilds a pool makes total_xact_count, total_query_count, total_received, total_sent, total_errors .. of all its servers "
+                 "fall back to 0" % [c for _b, _ok, c in served])
     r5 = ctx.rule("C18-R5", "every release of a server after a round trip counts one transaction on the client and on the server; each send_and_receive_loop counts one query", floor=4)
     if h:
         rm = [c.block for c in h.calls("pgcat::messages::read_message")]
